@@ -193,6 +193,44 @@ def run(ctx, repo):
                             "not a number (e.g. '4:05:33' for a sprint becomes '4.05.33') leaks a raw ValueError past a custom error class" % k,
                             "('100', '4:05:33')")
     ctx.floor('int()/float() conversions of text', n_conv, 6)
+    # divisions: the divisor is a non-zero constant, or a name that an enclosing test has found non-zero (ZeroDivisionError is not errorKlass)
+    n_div = 0
+    for d_ in ast.walk(fn):
+        if not (isinstance(d_, ast.BinOp) and isinstance(d_.op, (ast.Div, ast.FloorDiv, ast.Mod)) and not (
+                isinstance(d_.left, ast.Constant) and isinstance(d_.left.value, str))):
+            continue
+        r_ = d_.right
+        if isinstance(r_, ast.Constant) and isinstance(r_.value, (int, float)) and r_.value != 0:
+            continue
+        if isinstance(d_.op, ast.Mod) and isinstance(d_.left, (ast.Constant, ast.JoinedStr)):
+            continue
+        n_div += 1
+        names_ = {x.id for x in ast.walk(r_) if isinstance(x, ast.Name)}
+        guarded_ = False
+        c_, p_ = d_, getattr(d_, '_parent', None)
+        while p_ is not None and p_ is not fn:
+            if isinstance(p_, ast.If) and any(c_ is s_ or any(c_ is y for y in ast.walk(s_)) for s_ in p_.body):
+                conj = p_.test.values if isinstance(p_.test, ast.BoolOp) and isinstance(p_.test.op, ast.And) else [p_.test]
+                for t_ in conj:
+                    if isinstance(t_, ast.Name) and t_.id in names_:
+                        guarded_ = True
+                    if isinstance(t_, ast.Compare) and len(t_.ops) == 1 and isinstance(t_.left, ast.Name) and t_.left.id in names_ \
+                            and isinstance(t_.comparators[0], ast.Constant) and (
+                                (isinstance(t_.ops[0], (ast.Gt, ast.NotEq)) and t_.comparators[0].value == 0)
+                                or (isinstance(t_.ops[0], ast.GtE) and isinstance(t_.comparators[0].value, (int, float)) and t_.comparators[0].value > 0)):
+                        guarded_ = True
+            c_, p_ = p_, getattr(p_, '_parent', None)
+        if in_try_raising(d_, fn, ek) and False:
+            guarded_ = True
+        if isinstance(d_.op, ast.Mod) and is_str_expr(d_.left, fn, mod):
+            continue
+        if guarded_:
+            ctx.ok('R1', 'division %s: the divisor is tested non-zero by an enclosing condition' % unparse(d_)[:50])
+        else:
+            ctx.finding('R1', '%s::%s::division by a possibly zero %s' % (UTILS, FN, unparse(r_)), UTILS, d_.lineno,
+                        '`%s` divides by `%s`, which no enclosing condition has found non-zero: a zero value raises ZeroDivisionError, which is '
+                        'not the caller\'s error class' % (unparse(d_)[:60], unparse(r_)), "('100', '0.00')")
+    ctx.count('divisions examined', n_div)
     n_raise = 0
     for r in ast.walk(fn):
         if isinstance(r, ast.Raise):
